@@ -212,6 +212,12 @@ VOLUME = {'quick': 400, 'thorough': 8000}
 
 def run(prop, report, tier, seed, replay=None):
     rng = rng_for(seed, prop, 'diagram')
+    history = replay['input'].get('history', []) if replay else []
+    for past in history:          # (an output that depends on the calls made before it in the same process)
+        try:
+            build_task_diagram([V.build(s) for s in past])
+        except BaseException:   # noqa
+            pass
     inputs = [replay['input']['tasks']] if replay else [[(gen_chain(rng) if rng.random() < 0.2 else gen_task(rng)) for _ in range(rng.randint(0, 3))] for _ in range(VOLUME[tier])]
     terms, kept, text_terms = [], [], []
     dist = Counter()
@@ -228,7 +234,7 @@ def run(prop, report, tier, seed, replay=None):
         text2 = build_task_diagram([V.build(s) for s in specs])
         v = monitor(tasks, text, text2)
         if v is not None:
-            report.violation(f'C20:{v[0]}', v[1], dict(tasks=specs))
+            report.violation(f'C20:{v[0]}', v[1], dict(tasks=specs, history=[k for k in kept][-40:]))
         st = observed_struct(tasks)
         dist[f'types={len(st)}'] += 1
         dist[f'arrows={min(sum(len(r) for _, r in st), 6)}'] += 1
